@@ -142,3 +142,15 @@ def legacy_abort_covers_every_use_of_the_id(ctx):
                     if aborts and any(kwarg(a, 'UploadId') is not None and norm(kwarg(a, 'UploadId')) == uid for a in aborts):
                         covered = True
         ctx.ob(f, f'{dotted(c.func) or short(c.func)}(... upload_id ...)', covered, 'a failure of this call leaves the multipart upload open (no abort is issued): it is outside the aborting try', node=c)
+
+
+@rule('C05.f', ['C05'], floor=3)
+def abort_request_is_well_formed(ctx):
+    """Every abort the package can issue - the direct client calls and the
+    abort_multipart_upload method values registered as failure cleanups - passes only
+    arguments AbortMultipartUpload has (read from botocore's service model): an abort
+    carrying e.g. the SSE-C key arguments is rejected by botocore's parameter validation
+    before it is sent, the cleanup raises, and the upload of a failed transfer stays open.
+    (The C15 forwarding table restricted to the abort operation.)"""
+    from .c15 import _table
+    _table(ctx, only={'abort_multipart_upload'})
